@@ -31,6 +31,25 @@ def mk_builder(h, w, b, unset=0, initial_blocks=None):
     return SegmentationBuilder2D(h, w, **kw)
 
 
+class _InitialTimeout(Exception):
+    pass
+
+
+def _initial(bld, limit=10):
+    """initial() repairs unmet bounds by a random walk inside `while True`; on some bound configurations that walk does not
+    arrive (C18 is about the values that ARE produced): give it `limit` seconds, then count it like a walk that got stuck"""
+    import signal
+
+    def onalarm(signum, frame):
+        raise _InitialTimeout()
+    signal.signal(signal.SIGALRM, onalarm)
+    signal.alarm(limit)
+    try:
+        return bld.initial()
+    finally:
+        signal.alarm(0)
+
+
 def to_cells(blocks, w):
     return [[y * w + x for (y, x) in blk] for blk in blocks]
 
@@ -72,7 +91,7 @@ def walk(args):
             continue
         bld = mk_builder(h, w, b, unset=seed % 16)
         try:
-            cur = bld.initial()
+            cur = _initial(bld)
         except Exception as e:  # noqa
             out.append({"t": tid, "h": h, "w": w, "bnd": b, "before": [], "updates": [], "status": "exc", "exc": "initial:" + type(e).__name__})
             continue
@@ -106,13 +125,17 @@ def restart_walk(tid, h, w, b, seed, steps, rng):
     recs = []
     base = {"t": tid, "h": h, "w": w, "bnd": b, "status": "ok", "exc": ""}
     try:
-        start = mk_builder(h, w, b).initial()
+        start = _initial(mk_builder(h, w, b))
     except Exception as e:  # noqa
         return [dict(base, before=[], updates=[], status="exc", exc="initial:" + type(e).__name__)]
     bld = mk_builder(h, w, b, unset=seed % 16, initial_blocks=start if seed % 2 else None)
     try:
         for _ in range(max(2, steps // 4)):
-            cur = bld.initial()
+            try:
+                cur = _initial(bld)
+            except Exception as e:  # noqa
+                recs.append(dict(base, before=[], updates=[], status="exc", exc="initial:" + type(e).__name__))
+                break
             recs.append(dict(base, before=to_cells(cur, w), updates=[]))
             for k in range(rng.randint(0, 3)):
                 cands = bld.candidates(cur)
